@@ -43,17 +43,57 @@ pub struct Mut {
     pub max_default: usize,
     pub usable_roots: usize,
     pub oom_seen: u64,
+    /// allocation options of the next requests (None = plain `alloc`)
+    pub alloc_opts: Option<mmtk::util::alloc::AllocationOptions>,
+    pub last_alloc: AllocObs,
 }
 
 thread_local! {
     static OOM_FLAG: std::cell::Cell<u64> = const { std::cell::Cell::new(0) };
     static BLOCKED_FLAG: std::cell::Cell<u64> = const { std::cell::Cell::new(0) };
+    static OOM_EPOCH: std::cell::Cell<u64> = const { std::cell::Cell::new(0) };
+}
+
+/// Per mutator: non-zero while an allocation request is in flight; the watchdog uses it to tell a
+/// request that never returns from other kinds of stalls.
+pub static ALLOC_IN_FLIGHT: [std::sync::atomic::AtomicU64; 8] = [const { std::sync::atomic::AtomicU64::new(0) }; 8];
+pub static ALLOC_DESC: [std::sync::atomic::AtomicU64; 8] = [const { std::sync::atomic::AtomicU64::new(0) }; 8];
+pub static IN_BLOCK_FOR_GC: [std::sync::atomic::AtomicBool; 8] = [const { std::sync::atomic::AtomicBool::new(false) }; 8];
+
+/// Called by the watchdog when nothing has progressed for the whole budget: a mutator that has
+/// been inside one allocation request all that time without being blocked for a GC is a request
+/// that does not return.
+pub fn stuck_allocation() -> Option<String> {
+    for i in 0..ALLOC_IN_FLIGHT.len() {
+        if ALLOC_IN_FLIGHT[i].load(Ordering::SeqCst) != 0 && !IN_BLOCK_FOR_GC[i].load(Ordering::SeqCst) {
+            let d = ALLOC_DESC[i].load(Ordering::Relaxed);
+            let opts = if d & 8 != 0 { format!("allow_overcommit={} at_safepoint={} allow_oom_call={}", d & 1 != 0, d & 2 != 0, d & 4 != 0) } else { "default options".to_string() };
+            return Some(format!("mutator {} is inside alloc(size={}, sem={}, {}) and not blocked for a GC", i, d >> 8, (d >> 4) & 15, opts));
+        }
+    }
+    None
+}
+
+/// What the binding observed during one allocation request (C10).
+#[derive(Clone, Copy, Default, Debug)]
+pub struct AllocObs {
+    pub null: bool,
+    pub ooms: u64,
+    pub blocks: u64,
+    pub epoch_at_entry: u64,
+    pub epoch_at_oom: u64,
+    pub epoch_at_return: u64,
 }
 
 pub fn on_out_of_memory(_idx: usize, _kind: AllocationError) {
     OOM_FLAG.with(|f| f.set(f.get() + 1));
+    OOM_EPOCH.with(|f| f.set(world::current_epoch()));
 }
-pub fn on_block_for_gc(_idx: usize) {
+pub fn on_block_for_gc_return(idx: usize) {
+    IN_BLOCK_FOR_GC[idx.min(7)].store(false, Ordering::SeqCst);
+}
+pub fn on_block_for_gc(idx: usize) {
+    IN_BLOCK_FOR_GC[idx.min(7)].store(true, Ordering::SeqCst);
     BLOCKED_FLAG.with(|f| f.set(f.get() + 1));
     // a requester of the fork scenario has left the part of its MMTk call that may touch the
     // scheduler's lock
@@ -172,6 +212,8 @@ impl Mut {
             max_default,
             usable_roots: if pin { NROOTS } else { NROOTS },
             oom_seen: 0,
+            alloc_opts: None,
+            last_alloc: AllocObs::default(),
         }
     }
 
@@ -195,6 +237,91 @@ impl Mut {
         self.alloc_into_root_with_referent(r, size, nrefs, sem, kind, flags, align_log, offset, None)
     }
 
+    /// One allocation request (with `self.alloc_opts`), observed and judged against C10.
+    pub fn raw_alloc(&mut self, size: usize, align: usize, offset: usize, sem: u8) -> Address {
+        let w = world();
+        let (o0, b0, e0) = (oom_count(), blocked_count(), world::current_epoch());
+        let opts = self.alloc_opts;
+        let slot = self.idx.min(ALLOC_IN_FLIGHT.len() - 1);
+        ALLOC_DESC[slot].store(((size as u64).min((1 << 56) - 1) << 8) | (sem as u64) << 4 | opts.map(|o| 8 | (o.allow_overcommit as u64) | (o.at_safepoint as u64) << 1 | (o.allow_oom_call as u64) << 2).unwrap_or(0), Ordering::Relaxed);
+        ALLOC_IN_FLIGHT[slot].store(1 + blocked_count(), Ordering::SeqCst);
+        let addr = match opts {
+            None => memory_manager::alloc(self.m(), size, align, offset, sem_of(sem)),
+            Some(o) => memory_manager::alloc_with_options(self.m(), size, align, offset, sem_of(sem), o),
+        };
+        ALLOC_IN_FLIGHT[slot].store(0, Ordering::SeqCst);
+        w.counters.allocs.fetch_add(1, Ordering::Relaxed);
+        w.counters.alloc_bytes.fetch_add(size as u64, Ordering::Relaxed);
+        let obs = AllocObs { null: addr.is_zero(), ooms: oom_count() - o0, blocks: blocked_count() - b0, epoch_at_entry: e0, epoch_at_oom: OOM_EPOCH.with(|f| f.get()), epoch_at_return: world::current_epoch() };
+        self.last_alloc = obs;
+        self.judge_alloc(size, sem, opts.unwrap_or_default(), opts.is_some(), &obs);
+        addr
+    }
+
+    fn judge_alloc(&self, size: usize, sem: u8, o: mmtk::util::alloc::AllocationOptions, with_options: bool, obs: &AllocObs) {
+        let w = world();
+        let heap = w.cfg.heap_mb << 20;
+        let ctx = || format!("alloc{}(size={}, sem={}, {:?}) on plan {} (heap {} MiB): {:?}", if with_options { "_with_options" } else { "" }, size, sem, o, w.cfg.plan, w.cfg.heap_mb, obs);
+        let oc = if o.allow_overcommit { "overcommit" } else { "no-overcommit" };
+        let sp = if o.at_safepoint { "safepoint" } else { "not-at-safepoint" };
+        if obs.ooms > 0 && !o.allow_oom_call {
+            violation("C10", format!("oom-callback-although-allow_oom_call-is-false:{}:{}", sp, oc), ctx());
+        }
+        if obs.ooms > 1 {
+            violation("C10", "oom-callback-more-than-once-per-request", ctx());
+        }
+        if obs.ooms > 0 && !obs.null {
+            violation("C10", "non-null-result-after-oom-callback", ctx());
+        }
+        // larger than the whole heap: fails immediately; otherwise a collection must have been
+        // completed for this request before out_of_memory is signalled
+        let larger_than_heap = size > heap + (1 << 20);
+        if obs.ooms > 0 && !larger_than_heap && size + (1 << 20) < heap && obs.epoch_at_oom == obs.epoch_at_entry {
+            violation("C10", "oom-callback-without-a-collection-attempt", ctx());
+        }
+        if larger_than_heap && !obs.null {
+            violation("C10", "request-larger-than-the-heap-succeeded", ctx());
+        }
+        if larger_than_heap && obs.epoch_at_return != obs.epoch_at_entry && w.cfg.mutators == 1 && w.cfg.stress == 0 {
+            violation("C10", "request-larger-than-the-heap-triggered-a-collection", ctx());
+        }
+        if obs.blocks > 0 && !o.at_safepoint {
+            violation("C10", format!("block_for_gc-although-at_safepoint-is-false:{}", oc), ctx());
+        }
+        if obs.blocks > 0 && o.allow_overcommit && o.at_safepoint && !obs.null {
+            violation("C10", "overcommit-request-blocked-for-gc", ctx());
+        }
+        if obs.null && o.at_safepoint && o.allow_oom_call && obs.ooms == 0 {
+            violation("C10", format!("null-result-without-oom-callback:{}", oc), ctx());
+        }
+        if obs.null || with_options {
+            with_report("C10", |r| {
+                r.evaluations += 1;
+                let cls = (o.allow_overcommit as u64) | (o.at_safepoint as u64) << 1 | (o.allow_oom_call as u64) << 2;
+                r.count(if with_options { "requests_with_options" } else { "default_requests_failed" }, 1);
+                if obs.null {
+                    r.count("null_results", 1);
+                }
+                if obs.ooms > 0 {
+                    r.count(if larger_than_heap { "oom_immediate_larger_than_heap" } else { "oom_after_collection" }, 1);
+                }
+                if obs.null && obs.ooms == 0 {
+                    r.count(if !o.at_safepoint { "null_not_at_safepoint" } else { "null_oom_call_suppressed" }, 1);
+                }
+                if !obs.null && o.allow_overcommit && memory_manager::used_bytes(w.mmtk) > heap {
+                    r.count("overcommit_success_beyond_heap_size", 1);
+                }
+                if obs.blocks > 0 {
+                    r.count("requests_that_blocked_for_gc", 1);
+                }
+                r.key(mix(0xC10, mix(cls + 8 * with_options as u64, mix(sem as u64, mix(obs.null as u64 + 2 * (obs.ooms > 0) as u64 + 4 * (obs.blocks > 0) as u64, (larger_than_heap as u64) + 2 * (size > (64 << 10)) as u64)))));
+                if r.want_sample() && (obs.null || obs.blocks > 0) {
+                    r.sample(J::obj(vec![("request", J::s(ctx()))]));
+                }
+            });
+        }
+    }
+
     /// Like `alloc_into_root`; a reference object gets its referent (the object in root
     /// `referent_root`) as an initialising store *before* it is registered with MMTk, the way a
     /// `java.lang.ref.Reference` is constructed: the referent is never set again afterwards.
@@ -203,14 +330,8 @@ impl Mut {
         let w = world();
         debug_assert!(size >= HEADER_BYTES + 8 * nrefs && size % 8 == 0);
         let align = 1usize << align_log;
-        let oom_before = oom_count();
-        let addr = memory_manager::alloc(self.m(), size, align, offset as usize, sem_of(sem));
-        w.counters.allocs.fetch_add(1, Ordering::Relaxed);
-        w.counters.alloc_bytes.fetch_add(size as u64, Ordering::Relaxed);
+        let addr = self.raw_alloc(size, align, offset as usize, sem);
         if addr.is_zero() {
-            if oom_count() == oom_before {
-                violation("C10", "alloc:null-without-oom-callback", format!("alloc(size={}, sem={}) returned null with default options but out_of_memory was not called", size, sem));
-            }
             self.oom_seen += 1;
             return 0;
         }
@@ -1105,12 +1226,128 @@ impl Mut {
         }
     }
 
+    /// C10: fill the heap with reachable objects until a request fails, then issue requests with
+    /// every option combination and size class against the full heap, then drop everything.
+    fn run_oom(&mut self, rounds: u64) {
+        use mmtk::util::alloc::AllocationOptions;
+        let w = world();
+        let cfg = w.cfg.clone();
+        let heap = cfg.heap_mb << 20;
+        let t = SCRATCH;
+        for round in 0..rounds {
+            if w.done.load(Ordering::Relaxed) {
+                return;
+            }
+            // ---- A: fill -------------------------------------------------------------------------
+            let mut root = 0usize;
+            let mut in_root = 0usize;
+            let mut filled = 0u64;
+            let link = |m: &mut Mut, root: &mut usize, in_root: &mut usize| {
+                if *in_root > 0 {
+                    m.write_field(t, 0, Some(*root));
+                }
+                m.copy_root(*root, t);
+                *in_root += 1;
+                if *in_root >= 6000 {
+                    *root = (*root + 1) % GEN_ROOTS;
+                    *in_root = 0;
+                }
+            };
+            loop {
+                world::safepoint_poll();
+                w.last_progress.fetch_add(1, Ordering::Relaxed);
+                w.counters.ops.fetch_add(1, Ordering::Relaxed);
+                let (mut size, _n, mut sem, _k, _fl, al, off) = self.random_shape();
+                if sem == SEM_IMMORTAL {
+                    sem = SEM_DEFAULT;
+                }
+                if sem == SEM_DEFAULT {
+                    size = size.max(96 + 8 * self.rng.usize_below(64));
+                }
+                if cfg.plan == "PageProtect" {
+                    size = size.min(32 << 10);
+                }
+                if self.alloc_into_root(t, size.max(HEADER_BYTES + 8), 1, sem, KIND_NORMAL, 0, al, off) == 0 {
+                    break;
+                }
+                link(self, &mut root, &mut in_root);
+                filled += 1;
+                if filled > 3_000_000 {
+                    with_report("C10", |r| r.inconclusive("the heap did not fill up after 3M objects"));
+                    return;
+                }
+            }
+            self.drop_root(t);
+            with_report("C10", |r| {
+                r.count("heap_fill_rounds", 1);
+                r.count("objects_retained_when_full", filled);
+            });
+            // ---- B: requests against the full heap --------------------------------------------------
+            let big = [heap + (8 << 20), heap * 4, 1usize << 40, 1usize << 46, usize::MAX / 2 & !7];
+            for combo in 0..8u32 {
+                let o = AllocationOptions { allow_overcommit: combo & 1 != 0, at_safepoint: combo & 2 != 0, allow_oom_call: combo & 4 != 0 };
+                self.alloc_opts = Some(o);
+                // realistic sizes: the object is initialised and (sometimes) retained
+                let mut reqs: Vec<(u8, usize)> = vec![(SEM_DEFAULT, 64), (SEM_DEFAULT, 1024), (SEM_DEFAULT, self.max_default.min(32 << 10) & !7), (SEM_LOS, 128 << 10), (SEM_LOS, 1 << 20)];
+                if !never_collected(SEM_NONMOVING) && self.sem_supported(SEM_NONMOVING) {
+                    reqs.push((SEM_NONMOVING, 256));
+                }
+                if cfg.plan == "MarkSweep" {
+                    reqs[2].1 = reqs[2].1.min(self.max_default - 64);
+                }
+                for (sem, size) in reqs {
+                    world::safepoint_poll();
+                    w.last_progress.fetch_add(1, Ordering::Relaxed);
+                    if self.alloc_into_root(t, size, 1, sem, KIND_NORMAL, 0, 3, 0) != 0 {
+                        if self.rng.chance(1, 2) {
+                            link(self, &mut root, &mut in_root);
+                        }
+                        self.drop_root(t);
+                    }
+                }
+                // requests larger than the whole heap (LOS and Immortal: the semantics a VM would use)
+                for &size in &big {
+                    for sem in [SEM_LOS, SEM_IMMORTAL] {
+                        world::safepoint_poll();
+                        let a = self.raw_alloc(size, 8, 0, sem);
+                        if !a.is_zero() {
+                            // already reported by judge_alloc; nothing is written to the memory
+                        }
+                    }
+                }
+            }
+            self.alloc_opts = None;
+            // ---- C: drop everything, collect, go again -----------------------------------------------
+            for r in 0..NROOTS {
+                self.drop_root(r);
+            }
+            if self.idx == 0 || round % 2 == 0 {
+                self.op_user_gc(false);
+            }
+            with_report("C10", |r| r.count("rounds", 1));
+        }
+    }
+
+    fn sem_supported(&self, sem: u8) -> bool {
+        let cfg = &world().cfg;
+        if sem == SEM_NONMOVING && cfg!(any(feature = "var_a", feature = "var_b")) && (cfg.plan == "MarkCompact" || cfg.plan == "ConcurrentImmix" || cfg.is_generational()) {
+            return false; // known findings, see random_shape
+        }
+        if (sem == SEM_NONMOVING || sem == SEM_IMMORTAL) && cfg.plan == "Compressor" {
+            return false;
+        }
+        true
+    }
+
     /// Run `ops` operations.
     pub fn run(&mut self, ops: u64) {
         let w = world();
         let cfg = w.cfg.clone();
         if cfg.scenario == "cycles" {
             return self.run_cycles(ops);
+        }
+        if cfg.scenario == "oom" {
+            return self.run_oom(ops);
         }
         if cfg.scenario == "fork" && self.idx != 0 {
             return self.run_gc_requester(ops);
